@@ -132,7 +132,10 @@ def kind_specific(version, slot, v, m):
             for name, f in BAD_UUIDS:
                 out.append(("uuid:" + name, t + "--" + f(u)))
             out += [("no-separator", t + "-" + u), ("single-dash-type", t + "-x--" + u), ("type-only", t), ("uuid-only", u),
-                    ("uppercase-type", t.upper() + "--" + u), ("type-with-space", t + " --" + u), ("empty-type", "--" + u)]
+                    ("uppercase-type", t.upper() + "--" + u), ("type-with-space", t + " --" + u), ("empty-type", "--" + u),
+                    # more than one separator: whatever sits between the first and the last is part of neither a type nor a UUID
+                    ("extra-separator", t + "--x--" + u), ("double-separator", t + "----" + u), ("junk-between-separators", t + "--not a type!--" + u),
+                    ("uuid-twice", t + "--" + u + "--" + u)]
             if version == "2.0":
                 out.append(("uuid:version-1-in-2.0", t + "--" + u[:14] + "1" + u[15:]))
             if k == "id":
@@ -459,6 +462,13 @@ def corruptions(version, o, two_point_rng=None):
         oo = copy.deepcopy(o)
         get(oo, path)["x_custom_property"] = 1
         yield section + "|object|custom-property", ".".join(str(p) for p in path), oo
+        # content keys which the class takes for instructions when content is handed to it as keyword arguments
+        for lab, key, val in (("custom-property-wrapped", "custom_properties", {"x_wrapped": 1}),
+                              ("unknown-extension-wrapped", "custom_properties", {"extensions": {"x-not-registered-ext": {"a": 1}}}),
+                              ("empty-wrapper", "custom_properties", {}), ("valid-refs-key", "_valid_refs", {"*": "*"})):
+            oo = copy.deepcopy(o)
+            get(oo, path)[key] = val
+            yield section + "|object|constructor-argument:" + lab, ".".join(str(p) for p in path), oo
         if path:
             oo = copy.deepcopy(o)
             setp(oo, path, {})
@@ -474,6 +484,11 @@ def corruptions(version, o, two_point_rng=None):
             oo = copy.deepcopy(o)
             oo["objects"].insert(pos, {"type": "file", "name": "member-without-id.txt"})
             yield "member|object|observable-without-id-as-member", "objects.%d" % pos, oo
+        if version == "2.0":
+            # a STIX 2.1 cyber observable: it carries no spec_version, but it is 2.1 content all the same
+            oo = copy.deepcopy(o)
+            oo["objects"].append({"type": "file", "id": "file--5b3b0b3c-0a4e-4f0f-9c57-0d7f7a1b2c10", "name": "a-2.1-object.txt"})
+            yield "member|object|sco-of-2.1-as-member-of-2.0-bundle", "objects.%d" % (len(oo["objects"]) - 1), oo
     for lab, oo in constraint_breaks(version, o, objects):
         yield lab.replace(":", "|", 1) + "|co-constraint", "", oo
     if two_point_rng is not None:
